@@ -33,8 +33,10 @@ fn append_zst<T: EncodeAppend<Item = ()>>() {
 	let (p, k) = compact5(old);
 	let v = vec_from(&p[..k]);
 	let n: usize = kani::any();
-	kani::assume(n <= 3 || n > (u32::MAX as usize) - 4);
 	let total = old as u128 + n as u128;
+	// batch sizes: 0..=3 (iterated), or huge ones that make the combined count unrepresentable (must fail before iterating);
+	// huge AND representable batches would be iterated 2^32 times and are outside the bound
+	kani::assume(n <= 3 || (n > (u32::MAX as usize) - 4 && total > u32::MAX as u128));
 	let it = SymIter { n, yielded: 0, must_not_iterate: total > u32::MAX as u128 };
 	let r = T::append_or_new(v, it);
 	match &r {
@@ -201,30 +203,28 @@ pub fn c15q_zero_sized_items_with_encoding() {
 	core::mem::forget((r, r2));
 }
 
-/// histories: two successive appends == one append of the concatenation (inductive step)
-#[kani::proof]
-#[kani::unwind(10)]
-pub fn c15q_two_appends_equal_one() {
+/// histories: two successive appends == one append of the concatenation (inductive step); first batch size concrete
+fn two_appends<const K1: usize>() {
 	let x: [u8; 4] = kani::any();
-	let k1: usize = kani::any();
-	kani::assume(k1 <= 2);
-	let r1 = <Vec<u8> as EncodeAppend>::append_or_new(Vec::new(), x[..k1].iter());
-	let r12 = match r1 { Ok(v) => <Vec<u8> as EncodeAppend>::append_or_new(v, x[k1..k1 + 2].iter()), Err(e) => Err(e) };
-	let once = <Vec<u8> as EncodeAppend>::append_or_new(Vec::new(), x[..k1 + 2].iter());
+	let r1 = <Vec<u8> as EncodeAppend>::append_or_new(Vec::new(), x[..K1].iter());
+	let r12 = match r1 { Ok(v) => <Vec<u8> as EncodeAppend>::append_or_new(v, x[K1..K1 + 2].iter()), Err(e) => Err(e) };
+	let once = <Vec<u8> as EncodeAppend>::append_or_new(Vec::new(), x[..K1 + 2].iter());
 	match (&r12, &once) {
 		(Ok(a), Ok(b)) => assert!(same_slice(a, b), "two appends differ from one append of the concatenation"),
 		_ => assert!(false),
 	}
-	// and both equal the plain encoding
 	if let Ok(a) = &r12 {
 		let mut e = Buf::<8>::new();
-		put_compact((k1 + 2) as u128, &mut e);
+		put_compact((K1 + 2) as u128, &mut e);
 		let mut i = 0;
-		while i < k1 + 2 { e.put(x[i]); i += 1; }
+		while i < K1 + 2 { e.put(x[i]); i += 1; }
 		assert!(same_slice(a, e.bytes()), "appended sequence differs from encode() of the whole");
 	}
 	core::mem::forget((r12, once));
 }
+#[kani::proof] #[kani::unwind(10)] pub fn c15q_two_appends_k0() { two_appends::<0>() }
+#[kani::proof] #[kani::unwind(10)] pub fn c15q_two_appends_k1() { two_appends::<1>() }
+#[kani::proof] #[kani::unwind(10)] pub fn c15t_two_appends_k2() { two_appends::<2>() }
 
 /// negative twin: "the prefix never changes width" must FAIL
 #[kani::proof]
